@@ -37,6 +37,8 @@ import (
 	"github.com/hydraide/hydraide/app/core/settings"
 	"github.com/hydraide/hydraide/app/name"
 	"github.com/hydraide/hydraide/app/server/gateway"
+	"github.com/hydraide/hydraide/app/server/telemetry"
+	"github.com/hydraide/hydraide/app/verifhook"
 	hydrapb "github.com/hydraide/hydraide/sdk/go/hydraidego/v3/hydraidepbgo"
 	"github.com/vmihailenco/msgpack/v5"
 	"google.golang.org/grpc/metadata"
@@ -67,6 +69,16 @@ func (h c26Log) WithAttrs([]slog.Attr) slog.Handler { return h }
 func (h c26Log) WithGroup(string) slog.Handler      { return h }
 
 var c26Panics int64
+
+// mode `p`: the engine panics once, at the top of the next SummonSwamp (hook point summon.enter), so the
+// recover path of the handler under test is exercised with a request that is otherwise valid
+var c26InjectPanic int32
+
+func c26Hook(name string, args ...any) {
+	if name == "summon.enter" && atomic.CompareAndSwapInt32(&c26InjectPanic, 1, 0) {
+		panic("verif: injected engine panic")
+	}
+}
 
 // ---- RPC table ---------------------------------------------------------------
 
@@ -163,7 +175,10 @@ func c26Stream(rpc string, ctx context.Context) any {
 
 const c26Island = 1
 
-var c26CallTimeout = 6 * time.Second
+// a handler that has not returned after c26CallTimeout is given c26CallGrace more before it is called hung:
+// a loaded machine makes replies slow, not absent
+var c26CallTimeout = 10 * time.Second
+var c26CallGrace = 50 * time.Second
 
 var c26Seeded = []string{"c26/seed/main", "c26/seed/other"}
 
@@ -212,11 +227,38 @@ func c26SeedSwamp(st *c26State, nm string) error {
 	return nil
 }
 
+// options of the current case (`case N RPC eng=v1|v2 tel=0|1`)
+var c26Eng, c26Tel = "v2", false
+
+func c26CaseOpts(f []string) {
+	c26Eng, c26Tel = "v2", false
+	for _, t := range f {
+		switch t {
+		case "eng=v1":
+			c26Eng = "v1"
+		case "tel=1":
+			c26Tel = true
+		}
+	}
+}
+
 func c26Start() (*c26State, error) {
 	slog.SetDefault(slog.New(c26Log{n: &c26Panics}))
+	verifhook.SetHandler(c26Hook)
 	rig, err := NewRig(3, 2000, 3600, 0)
 	if err != nil {
 		return nil, err
+	}
+	if c26Eng == "v2" {
+		if err := rig.Settings.SetEngine(settings.EngineV2); err != nil {
+			return nil, err
+		}
+	}
+	if c26Tel {
+		col := telemetry.New(telemetry.Config{Capacity: 64})
+		col.Record(telemetry.Event{ID: "e", Method: "Get", SwampName: "c26/seed/main", Success: false, ErrorCode: "Internal", ErrorMsg: "x"})
+		col.Record(telemetry.Event{Method: "Set", SwampName: "c26/seed/main", Success: true})
+		rig.GW.TelemetryCollector = col
 	}
 	rig.Settings.RegisterPattern(name.New().Sanctuary("c26").Realm("*").Swamp("*"), false, 3600,
 		&settings.FileSystemSettings{WriteIntervalSec: 1, MaxFileSizeByte: 8192})
@@ -264,8 +306,30 @@ func c26Close(st *c26State, nm string) (vig bool, closed bool) {
 	select {
 	case v := <-done:
 		return v, true
-	case <-time.After(5 * time.Second):
+	case <-time.After(60 * time.Second):
 		return false, false
+	}
+}
+
+// c26Flush writes the pending treasures of every touched open swamp to disk without closing it.
+func c26Flush(st *c26State, names map[string]bool) {
+	h := st.rig.Zeus.GetHydra()
+	for nm := range names {
+		n := name.Load(nm)
+		if ex, err := h.IsExistSwamp(c26Island, n); err != nil || !ex {
+			continue
+		}
+		done := make(chan struct{})
+		go func() {
+			defer close(done)
+			if sw, err := h.SummonSwamp(context.Background(), c26Island, n); err == nil && sw != nil {
+				sw.WriteTreasuresToFilesystem()
+			}
+		}()
+		select {
+		case <-done:
+		case <-time.After(60 * time.Second):
+		}
 	}
 }
 
@@ -316,7 +380,7 @@ func c26StopRig(st *c26State) string {
 	res := "ok"
 	select {
 	case <-done:
-	case <-time.After(8 * time.Second):
+	case <-time.After(60 * time.Second):
 		res = "hang"
 	}
 	lock := 0
@@ -451,11 +515,19 @@ func c26Call(st *c26State, rpc c26Rpc, msg proto.Message) (class string, recover
 	select {
 	case <-finished:
 	case <-time.After(c26CallTimeout):
-		return "hang", atomic.LoadInt64(&c26Panics) - p0
+		select {
+		case <-finished: // slow, not stuck
+		case <-time.After(c26CallGrace):
+			return "hang", atomic.LoadInt64(&c26Panics) - p0
+		}
 	}
 	recovered = atomic.LoadInt64(&c26Panics) - p0
 	if escaped {
 		return "panic", recovered
+	}
+	c26LastResp = reflect.Value{}
+	if rpc.kind == "unary" {
+		c26LastResp = out[0]
 	}
 	errV := out[len(out)-1]
 	if !errV.IsNil() {
@@ -483,13 +555,74 @@ func c26NoFields(t reflect.Type) bool {
 	return m.ProtoReflect().Descriptor().Fields().Len() == 0
 }
 
+// keys the response acknowledges as written, per swamp (Set: NEW / UPDATED; PatchTreasures: CREATED / PATCHED;
+// Increment* and Uint32SlicePush: the request's keys when the call succeeded)
+func c26Acked(rpc c26Rpc, req proto.Message, resp reflect.Value) map[string][]string {
+	out := map[string][]string{}
+	if !resp.IsValid() {
+		return out
+	}
+	if resp.IsNil() && rpc.name != "Uint32SlicePush" {
+		return out
+	}
+	switch r := resp.Interface().(type) {
+	case *hydrapb.SetResponse:
+		for _, sw := range r.GetSwamps() {
+			for _, ks := range sw.GetKeysAndStatuses() {
+				if ks.GetStatus() == hydrapb.Status_NEW || ks.GetStatus() == hydrapb.Status_UPDATED {
+					out[sw.GetSwampName()] = append(out[sw.GetSwampName()], ks.GetKey())
+				}
+			}
+		}
+	case *hydrapb.PatchTreasuresResponse:
+		q := req.(*hydrapb.PatchTreasuresRequest)
+		for _, pr := range r.GetResults() {
+			if pr.GetStatus() == hydrapb.PatchResult_CREATED || pr.GetStatus() == hydrapb.PatchResult_PATCHED {
+				out[q.GetSwampName()] = append(out[q.GetSwampName()], pr.GetKey())
+			}
+		}
+	case *hydrapb.AddToUint32SlicePushResponse:
+		q := req.(*hydrapb.AddToUint32SlicePushRequest)
+		for _, pr := range q.GetKeySlicePairs() {
+			if len(pr.GetValues()) > 0 {
+				out[q.GetSwampName()] = append(out[q.GetSwampName()], pr.GetKey())
+			}
+		}
+	default:
+		if strings.HasPrefix(rpc.name, "Increment") {
+			m := req.ProtoReflect()
+			fds := m.Descriptor().Fields()
+			inc := resp.Elem().FieldByName("IsIncremented")
+			if inc.IsValid() && inc.Bool() {
+				out[m.Get(fds.ByName("SwampName")).String()] = []string{m.Get(fds.ByName("Key")).String()}
+			}
+		}
+	}
+	return out
+}
+
+var c26LastResp reflect.Value
+
+var c26Mode = "w"
+
 func c26Do(st *c26State, rpc c26Rpc, msg proto.Message) string {
 	touched := map[string]bool{}
 	for _, s := range c26Seeded {
 		touched[s] = true
 	}
 	c26Names(msg.ProtoReflect(), touched)
+	if c26Mode == "p" {
+		atomic.StoreInt32(&c26InjectPanic, 1)
+	}
 	class, rec := c26Call(st, rpc, msg)
+	atomic.StoreInt32(&c26InjectPanic, 0)
+	if c26Mode == "f" && class != "hang" {
+		// mode `f`: the swamps stay open, what is waiting for the writer is flushed to disk (as the write-interval
+		// ticker would do), and the same request is sent once more; the reply of the second one is reported
+		c26Flush(st, touched)
+		c2, r2 := c26Call(st, rpc, proto.Clone(msg))
+		class, rec = c2, rec+r2
+	}
 	if class == "hang" {
 		// the handler never returned: it still holds whatever it took; this server is abandoned
 		lock := 0
@@ -519,7 +652,13 @@ func c26Do(st *c26State, rpc c26Rpc, msg proto.Message) string {
 		}
 	}
 	store := "same"
-	corrupt := false
+	corrupt, lost := false, false
+	acked := map[string][]string{}
+	for sw, keys := range c26Acked(rpc, msg, c26LastResp) {
+		if n := c26Norm(sw); n != "" {
+			acked[n] = append(acked[n], keys...)
+		}
+	}
 	mentioned := map[string]bool{}
 	c26Strings(msg.ProtoReflect(), mentioned)
 	if closeRes == "ok" {
@@ -527,6 +666,15 @@ func c26Do(st *c26State, rpc c26Rpc, msg proto.Message) string {
 			want, have := st.base[n], c26Snapshot(st, n)
 			if want == "" {
 				want = "absent"
+			}
+			// a key the response reported as written must come back from disk
+			if class == "resp" {
+				rows := c26Rows(have)
+				for _, k := range acked[n] {
+					if _, ok := rows[k]; !ok {
+						lost = true
+					}
+				}
 			}
 			if want != have {
 				store = "changed"
@@ -539,6 +687,9 @@ func c26Do(st *c26State, rpc c26Rpc, msg proto.Message) string {
 	}
 	if corrupt {
 		store = "corrupt"
+	}
+	if lost {
+		store = "lostack"
 	}
 	return fmt.Sprintf("%s p=%d lock=%d vig=%d store=%s close=%s", class, rec, lock, vig, store, closeRes)
 }
@@ -624,6 +775,7 @@ func c26Run(in *bufio.Scanner, w *bufio.Writer) {
 		switch {
 		case f[0] == "case":
 			stop()
+			c26CaseOpts(f)
 			var err error
 			st, err = c26Start()
 			if err != nil {
@@ -659,6 +811,7 @@ func c26Run(in *bufio.Scanner, w *bufio.Writer) {
 				fmt.Fprintln(w, "bad-op", err)
 				continue
 			}
+			c26Mode = f[2]
 			fmt.Fprintln(w, c26Do(st, rpc, msg))
 			if st.poisoned {
 				// cannot be stopped (the stuck handler holds the system lock): leave it behind, start afresh
@@ -682,7 +835,11 @@ func c26Child(line string) string {
 		return "child-error " + err.Error()
 	}
 	cmd := exec.Command(exe, "run", "C26child")
-	cmd.Stdin = strings.NewReader(line + "\n")
+	tel := "tel=0"
+	if c26Tel {
+		tel = "tel=1"
+	}
+	cmd.Stdin = strings.NewReader("opts eng=" + c26Eng + " " + tel + "\n" + line + "\n")
 	var out, errb bytes.Buffer
 	cmd.Stdout, cmd.Stderr = &out, &errb
 	done := make(chan error, 1)
@@ -692,7 +849,7 @@ func c26Child(line string) string {
 	go func() { done <- cmd.Wait() }()
 	select {
 	case err = <-done:
-	case <-time.After(60 * time.Second):
+	case <-time.After(240 * time.Second):
 		_ = cmd.Process.Kill()
 		return "panic p=0 lock=0 vig=0 store=same close=hang"
 	}
@@ -710,6 +867,10 @@ func c26RunChild(in *bufio.Scanner, w *bufio.Writer) {
 	os.Stdout = os.Stderr
 	for in.Scan() {
 		f := strings.Split(in.Text(), " ")
+		if f[0] == "opts" {
+			c26CaseOpts(f)
+			continue
+		}
 		if f[0] != "req" || len(f) < 4 {
 			continue
 		}
@@ -826,6 +987,8 @@ func c26Base(rpc c26Rpc) proto.Message {
 			}
 		case "Limit", "HowMany":
 			m.Set(fd, protoreflect.ValueOfInt32(2))
+		case "SetIfNotExist", "SetIfExist", "Condition":
+			_ = m.Mutable(fd).Message() // present and empty: its fields get mutated one by one
 		case "Value":
 			if fd.Kind() == protoreflect.Uint32Kind {
 				m.Set(fd, protoreflect.ValueOfUint32(2))
@@ -841,11 +1004,13 @@ var c26NameMut = []string{"", "ab", "c26/seed", "a/b", "c26/seed/main/extra", "/
 type c26Mut struct {
 	msg   proto.Message
 	label string
+	kind  string
 }
 
 type c26Op struct {
 	path  []int
 	label string
+	kind  string // "", "enum", "nilmsg", "emptymsg", "oversize": always run in the quick tier
 	f     func(m protoreflect.Message)
 }
 
@@ -879,10 +1044,10 @@ func c26ApplyTo(c proto.Message, op c26Op) (ok bool) {
 func c26Mutations(base proto.Message, rng *rand.Rand, doubles int) []c26Mut {
 	var out []c26Mut
 	var ops []c26Op
-	curLabel := ""
+	curLabel, curKind := "", ""
 	var walk func(path []int, m protoreflect.Message, depth int)
 	apply := func(path []int, f func(m protoreflect.Message)) {
-		ops = append(ops, c26Op{append([]int{}, path...), curLabel, f})
+		ops = append(ops, c26Op{append([]int{}, path...), curLabel, curKind, f})
 	}
 	long := strings.Repeat("k", 70000)
 	walk = func(path []int, m protoreflect.Message, depth int) {
@@ -893,9 +1058,44 @@ func c26Mutations(base proto.Message, rng *rand.Rand, doubles int) []c26Mut {
 			if fd.Name() == "IslandID" {
 				continue
 			}
-			curLabel = string(fd.Name())
+			curLabel, curKind = string(fd.Name()), ""
 			set := func(v protoreflect.Value) {
+				// the label names the field and the class of the value, so that a recorded finding can say
+				// `From<0` instead of "something about From"
+				base := curLabel
+				switch x := v.Interface().(type) {
+				case int32:
+					curLabel += c26NumClass(int64(x))
+				case int64:
+					curLabel += c26NumClass(x)
+				case uint32:
+					curLabel += c26NumClass(int64(x))
+				case uint64:
+					if x > 1<<62 {
+						curLabel += ">0"
+					} else {
+						curLabel += c26NumClass(int64(x))
+					}
+				case float32:
+					curLabel += c26NumClass(int64(x * 2))
+				case float64:
+					curLabel += c26NumClass(int64(x * 2))
+				case string:
+					switch {
+					case x == "":
+						curLabel += ":empty"
+					case len(x) > 65535:
+						curLabel += ":over65535"
+					case len(x) == 65535:
+						curLabel += ":65535"
+					}
+				case protoreflect.EnumNumber:
+					if fd.Enum() != nil && (int(x) < 0 || int(x) >= fd.Enum().Values().Len()) {
+						curLabel += ":outofrange"
+					}
+				}
 				apply(path, func(mm protoreflect.Message) { mm.Set(mm.Descriptor().Fields().Get(fi), v) })
+				curLabel = base
 			}
 			clear := func() { apply(path, func(mm protoreflect.Message) { mm.Clear(mm.Descriptor().Fields().Get(fi)) }) }
 			switch {
@@ -914,6 +1114,17 @@ func c26Mutations(base proto.Message, rng *rand.Rand, doubles int) []c26Mut {
 				}
 			case fd.IsList() && fd.Kind() == protoreflect.MessageKind:
 				clear()
+				curKind = "emptymsg"
+				apply(path, func(mm protoreflect.Message) { // one element, all fields absent
+					f := mm.Descriptor().Fields().Get(fi)
+					mm.Clear(f)
+					mm.Mutable(f).List().Append(mm.Mutable(f).List().NewElement())
+				})
+				apply(path, func(mm protoreflect.Message) { // an empty element after the valid ones
+					f := mm.Descriptor().Fields().Get(fi)
+					mm.Mutable(f).List().Append(mm.Mutable(f).List().NewElement())
+				})
+				curKind = ""
 				l := m.Get(fd).List()
 				if l.Len() > 0 {
 					if depth < 3 {
@@ -939,7 +1150,14 @@ func c26Mutations(base proto.Message, rng *rand.Rand, doubles int) []c26Mut {
 			case fd.IsList():
 				clear()
 			case fd.Kind() == protoreflect.MessageKind:
+				curKind = "nilmsg"
 				clear()
+				curKind = "emptymsg"
+				apply(path, func(mm protoreflect.Message) { // present, but every field absent
+					f := mm.Descriptor().Fields().Get(fi)
+					mm.Set(f, protoreflect.ValueOfMessage(mm.NewField(f).Message()))
+				})
+				curKind = ""
 				if m.Has(fd) && depth < 3 {
 					walk(append(append([]int{}, path...), i, 0), m.Get(fd).Message(), depth+1)
 					curLabel = string(fd.Name())
@@ -969,14 +1187,26 @@ func c26Mutations(base proto.Message, rng *rand.Rand, doubles int) []c26Mut {
 					}
 					set(protoreflect.ValueOfString("c26/seed/" + strings.Repeat("n", 300)))
 				} else {
-					for _, v := range []string{"", "nokey", "s1", "sl", "by", long} {
+					for _, v := range []string{"", "nokey", "s1", "sl", "by"} {
 						set(protoreflect.ValueOfString(v))
 					}
+					if fd.Name() == "Key" {
+						curKind = "oversize"
+						set(protoreflect.ValueOfString(strings.Repeat("k", 65535))) // largest key the V2 writer takes
+						set(protoreflect.ValueOfString(strings.Repeat("k", 65536)))
+					}
+					set(protoreflect.ValueOfString(long))
+					curKind = ""
 				}
 			case fd.Kind() == protoreflect.EnumKind:
-				for _, v := range []int32{0, 1, int32(fd.Enum().Values().Len() - 1), 99, -1} {
+				for _, v := range []int32{0, 1, int32(fd.Enum().Values().Len() - 1)} {
 					set(protoreflect.ValueOfEnum(protoreflect.EnumNumber(v)))
 				}
+				curKind = "enum" // out of range: one past the last value, far out, negative
+				for _, v := range []int32{int32(fd.Enum().Values().Len()), 99, -1} {
+					set(protoreflect.ValueOfEnum(protoreflect.EnumNumber(v)))
+				}
+				curKind = ""
 			case fd.Kind() == protoreflect.BoolKind:
 				set(protoreflect.ValueOfBool(!m.Get(fd).Bool()))
 			case fd.Kind() == protoreflect.Int32Kind || fd.Kind() == protoreflect.Sint32Kind:
@@ -1014,7 +1244,7 @@ func c26Mutations(base proto.Message, rng *rand.Rand, doubles int) []c26Mut {
 	for _, op := range ops {
 		c := proto.Clone(base)
 		if c26ApplyTo(c, op) {
-			out = append(out, c26Mut{c, op.label})
+			out = append(out, c26Mut{c, op.label, op.kind})
 		}
 	}
 	// pairs of mutations of different fields (thorough tier)
@@ -1025,10 +1255,20 @@ func c26Mutations(base proto.Message, rng *rand.Rand, doubles int) []c26Mut {
 		}
 		c := proto.Clone(base)
 		if c26ApplyTo(c, a) && c26ApplyTo(c, b) {
-			out = append(out, c26Mut{c, a.label + "+" + b.label})
+			out = append(out, c26Mut{c, a.label + "+" + b.label, ""})
 		}
 	}
 	return out
+}
+
+func c26NumClass(v int64) string {
+	switch {
+	case v < 0:
+		return "<0"
+	case v == 0:
+		return "=0"
+	}
+	return ">0"
 }
 
 func c26Filter(bytesField bool) *hydrapb.FilterGroup {
@@ -1059,20 +1299,20 @@ func c26Directed(rpc c26Rpc) []c26Mut {
 	const S = "c26/seed/main"
 	switch rpc.name {
 	case "GetByIndex":
-		return []c26Mut{{&hydrapb.GetByIndexRequest{IslandID: c26Island, SwampName: S, From: -1, Limit: 2}, "From"}}
+		return []c26Mut{{&hydrapb.GetByIndexRequest{IslandID: c26Island, SwampName: S, From: -1, Limit: 2}, "From<0", "directed"}}
 	case "GetByIndexStream":
-		return []c26Mut{{&hydrapb.GetByIndexStreamRequest{IslandID: c26Island, SwampName: S, From: -1, Limit: 2}, "From"}}
+		return []c26Mut{{&hydrapb.GetByIndexStreamRequest{IslandID: c26Island, SwampName: S, From: -1, Limit: 2}, "From<0", "directed"}}
 	case "GetByIndexStreamFromMany":
-		return []c26Mut{{&hydrapb.GetByIndexStreamFromManyRequest{Queries: []*hydrapb.SwampQuery{{IslandID: c26Island, SwampName: S, From: -1, Limit: 2}}}, "From"}}
+		return []c26Mut{{&hydrapb.GetByIndexStreamFromManyRequest{Queries: []*hydrapb.SwampQuery{{IslandID: c26Island, SwampName: S, From: -1, Limit: 2}}}, "From<0", "directed"}}
 	case "Uint32SliceDelete":
 		return []c26Mut{
-			{&hydrapb.Uint32SliceDeleteRequest{IslandID: c26Island, SwampName: S, KeySlicePairs: []*hydrapb.KeySlicePair{{Key: "s1", Values: []uint32{1}}}}, "Key"},
-			{&hydrapb.Uint32SliceDeleteRequest{IslandID: c26Island, SwampName: S, KeySlicePairs: []*hydrapb.KeySlicePair{{Key: "sl", Values: []uint32{1, 2, 3}}}}, "Values"},
+			{&hydrapb.Uint32SliceDeleteRequest{IslandID: c26Island, SwampName: S, KeySlicePairs: []*hydrapb.KeySlicePair{{Key: "s1", Values: []uint32{1}}}}, "Key", "directed"},
+			{&hydrapb.Uint32SliceDeleteRequest{IslandID: c26Island, SwampName: S, KeySlicePairs: []*hydrapb.KeySlicePair{{Key: "sl", Values: []uint32{1, 2, 3}}}}, "Values", "directed"},
 		}
 	case "Uint32SliceSize":
-		return []c26Mut{{&hydrapb.Uint32SliceSizeRequest{IslandID: c26Island, SwampName: "c26/none/missing", Key: "sl"}, "SwampName"}}
+		return []c26Mut{{&hydrapb.Uint32SliceSizeRequest{IslandID: c26Island, SwampName: "c26/none/missing", Key: "sl"}, "SwampName", "directed"}}
 	case "Uint32SliceIsValueExist":
-		return []c26Mut{{&hydrapb.Uint32SliceIsValueExistRequest{IslandID: c26Island, SwampName: "c26/none/missing", Key: "sl", Value: 2}, "SwampName"}}
+		return []c26Mut{{&hydrapb.Uint32SliceIsValueExistRequest{IslandID: c26Island, SwampName: "c26/none/missing", Key: "sl", Value: 2}, "SwampName", "directed"}}
 	}
 	return nil
 }
@@ -1147,6 +1387,24 @@ func c26EntryShape(m protoreflect.Message, mode string) string {
 	if fd := get("KeyValues"); fd != nil {
 		kv = m.Get(fd).List().Len() == 0
 	}
+	// a treasure key that cannot be stored: empty or longer than 65535 bytes (the entry's own Key, or the Key of a
+	// KeyValues / KeySlicePairs / Patches child)
+	kb := false
+	badKey := func(k string) bool { return k == "" || len(k) > 65535 }
+	if fd := get("Key"); fd != nil && fd.Kind() == protoreflect.StringKind && !fd.IsList() {
+		kb = badKey(m.Get(fd).String())
+	}
+	for _, cn := range []string{"KeyValues", "KeySlicePairs", "Patches"} {
+		if fd := get(cn); fd != nil && fd.IsList() && fd.Kind() == protoreflect.MessageKind {
+			l := m.Get(fd).List()
+			for i := 0; i < l.Len(); i++ {
+				cm := l.Get(i).Message()
+				if kf := cm.Descriptor().Fields().ByName("Key"); kf != nil && badKey(cm.Get(kf).String()) {
+					kb = true
+				}
+			}
+		}
+	}
 	iz := false
 	if fd := get("IncrementBy"); fd != nil {
 		v := m.Get(fd)
@@ -1192,8 +1450,12 @@ func c26EntryShape(m protoreflect.Message, mode string) string {
 			li = m.Get(fd).String() == ""
 		}
 	}
-	return fmt.Sprintf("p%d,ne%s,ep%s,x%s,k%s,kv%s,iz%s,oe%s,mn%s,pe%s,cap%s,lk%s,li%s", len(parts), c26B(nm == ""), c26B(ep), c26B(exist), keys,
-		c26B(kv), c26B(iz), c26B(oe), c26B(mn), c26B(pe), cp, c26B(lk), c26B(li))
+	fn := false
+	if fd := get("From"); fd != nil && (fd.Kind() == protoreflect.Int32Kind || fd.Kind() == protoreflect.Int64Kind) {
+		fn = m.Get(fd).Int() < 0
+	}
+	return fmt.Sprintf("p%d,ne%s,ep%s,x%s,k%s,kv%s,kb%s,fn%s,iz%s,oe%s,mn%s,pe%s,cap%s,lk%s,li%s,t%s", len(parts), c26B(nm == ""), c26B(ep), c26B(exist), keys,
+		c26B(kv), c26B(kb), c26B(fn), c26B(iz), c26B(oe), c26B(mn), c26B(pe), cp, c26B(lk), c26B(li), c26B(!c26GenTel))
 }
 
 func c26Shape(msg proto.Message, mode string) string {
@@ -1246,62 +1508,122 @@ func c26Emit(w *bufio.Writer, rpc c26Rpc, msg proto.Message, mode string, label 
 	fmt.Fprintf(w, "req %s %s %s | %s | m=%s\n", rpc.name, mode, hex.EncodeToString(b), c26Shape(dec, mode), label)
 }
 
+var c26GenTel = false // telemetry collector configured in the case being generated
+
+// handlers whose engine part starts with SummonSwamp in the handler's own goroutine
+func c26Summons(rpc string) bool {
+	switch rpc {
+	case "Heartbeat", "Lock", "Unlock", "RegisterSwamp", "DeRegisterSwamp", "IsSwampExist", "DestroyBulk",
+		"SubscribeToEvents", "SubscribeToInfo", "SubscribeToTelemetry", "GetTelemetryHistory", "GetTelemetryStats", "GetErrorDetails":
+		return false
+	}
+	return true
+}
+
+func c26WritesKeys(rpc string) bool {
+	// plus the two readers that leave an empty swamp behind on the legacy engine (recorded finding)
+	return c26Keyed(rpc) || rpc == "Uint32SliceSize" || rpc == "Uint32SliceIsValueExist"
+}
+
 func c26Gen(rng *rand.Rand, tier string, w *bufio.Writer) {
-	per, doubles := 32, 0
+	per, doubles := 30, 0
 	if tier == "thorough" {
 		per, doubles = 2000, 1200
 	}
 	only := os.Getenv("C26_ONLY")
-	for ci, rpc := range c26Rpcs() {
+	ci := 0
+	for _, rpc := range c26Rpcs() {
 		if only != "" && only != rpc.name {
 			continue
 		}
-		fmt.Fprintf(w, "case %d %s\n", ci, rpc.name)
-		base := c26Base(rpc)
-		c26Emit(w, rpc, base, "w", "base")
-		for _, d := range c26Directed(rpc) {
-			c26Emit(w, rpc, d.msg, "w", d.label)
+		// every RPC on the current engine (V2); RPCs that write by key also on the legacy engine;
+		// the telemetry RPCs also with a collector configured
+		variants := []string{"eng=v2 tel=0"}
+		if c26WritesKeys(rpc.name) {
+			variants = append(variants, "eng=v1 tel=0")
 		}
-		muts := c26Mutations(base, rng, doubles)
-		// name / key-list mutations first (the anticipated defects), the rest sampled
-		var first, rest []c26Mut
-		for _, m := range muts {
-			s := c26Shape(m.msg, "w")
-			if !strings.Contains(s, "p3,ne0,ep0") || strings.Contains(s, "kN") || strings.Contains(s, "kF") {
-				first = append(first, m)
-			} else {
-				rest = append(rest, m)
-			}
+		if strings.Contains(rpc.name, "Telemetry") || rpc.name == "GetErrorDetails" {
+			variants = append(variants, "eng=v2 tel=1")
 		}
-		rng.Shuffle(len(rest), func(a, b int) { rest[a], rest[b] = rest[b], rest[a] })
-		if rpc.kind == "bidi" && tier != "thorough" {
-			// each DestroyBulk request runs in its own process
-			if len(first) > 8 {
-				first = first[:8]
+		for vi, variant := range variants {
+			c26GenTel = strings.HasSuffix(variant, "tel=1")
+			fmt.Fprintf(w, "case %d %s %s\n", ci, rpc.name, variant)
+			ci++
+			base := c26Base(rpc)
+			c26Emit(w, rpc, base, "w", "base")
+			if c26Summons(rpc.name) {
+				c26Emit(w, rpc, base, "p", "engine-panic") // a panic below the prefix: the handler must recover and unwind
 			}
-			rest = rest[:min(len(rest), 3)]
-		}
-		n := 0
-		seen := map[string]bool{}
-		for _, m := range append(first, rest...) {
-			if n >= per {
-				break
+			if c26Keyed(rpc.name) {
+				c26Emit(w, rpc, base, "f", "base")
 			}
-			b, _ := proto.MarshalOptions{Deterministic: true}.Marshal(m.msg)
-			if seen[string(b)] {
-				continue
+			for _, d := range c26Directed(rpc) {
+				c26Emit(w, rpc, d.msg, "w", d.label)
 			}
-			seen[string(b)] = true
-			c26Emit(w, rpc, m.msg, "w", m.label)
-			n++
-			if c26HasKeys(m.msg) && rpc.kind != "bidi" {
-				c26Emit(w, rpc, m.msg, "e", m.label)
+			dbl := doubles
+			if vi > 0 {
+				dbl = doubles / 4
+			}
+			muts := c26Mutations(base, rng, dbl)
+			// always: malformed names / key lists, out-of-range enums, nil and empty nested messages, oversized
+			// keys; the rest is sampled up to the tier budget
+			var first, rest []c26Mut
+			for _, m := range muts {
+				s := c26Shape(m.msg, "w")
+				if m.kind != "" || !strings.Contains(s, "p3,ne0,ep0") || strings.Contains(s, "kN") || strings.Contains(s, "kF") {
+					first = append(first, m)
+				} else {
+					rest = append(rest, m)
+				}
+			}
+			if vi > 0 && tier != "thorough" {
+				// second engine / collector: the engine-dependent inputs only
+				var f2 []c26Mut
+				for _, m := range first {
+					if m.kind == "oversize" || m.kind == "emptymsg" || c26GenTel || strings.Contains(c26Shape(m.msg, "w"), "p3,ne0,ep0,x0") {
+						f2 = append(f2, m)
+					}
+				}
+				first, rest = f2, rest[:min(len(rest), 6)]
+			}
+			rng.Shuffle(len(rest), func(a, b int) { rest[a], rest[b] = rest[b], rest[a] })
+			if rpc.kind == "bidi" && tier != "thorough" {
+				// each DestroyBulk request runs in its own process
+				if len(first) > 8 {
+					first = first[:8]
+				}
+				rest = rest[:min(len(rest), 3)]
+			}
+			n := 0
+			seen := map[string]bool{}
+			budget := max(per, len(first)+4)
+			if rpc.kind == "bidi" && tier != "thorough" {
+				budget = per
+			}
+			for _, m := range append(first, rest...) {
+				if n >= budget {
+					break
+				}
+				b, _ := proto.MarshalOptions{Deterministic: true}.Marshal(m.msg)
+				if seen[string(b)] {
+					continue
+				}
+				seen[string(b)] = true
+				c26Emit(w, rpc, m.msg, "w", m.label)
 				n++
+				if m.kind == "oversize" && c26Keyed(rpc.name) {
+					c26Emit(w, rpc, m.msg, "f", m.label) // again after a flush, the swamp still open
+					n++
+				}
+				if c26HasKeys(m.msg) && rpc.kind != "bidi" {
+					c26Emit(w, rpc, m.msg, "e", m.label)
+					n++
+				}
 			}
+			// valid request again at the end: the server still works
+			c26Emit(w, rpc, base, "w", "base")
+			fmt.Fprintln(w, "end")
 		}
-		// valid request again at the end: the server still works
-		c26Emit(w, rpc, base, "w", "base")
-		fmt.Fprintln(w, "end")
 	}
 }
 
